@@ -56,3 +56,17 @@ pub assume_specification<Idx: Clone>[ <Range<Idx> as Clone>::clone ](r: &Range<I
         cloned(r.start, res.start),
         cloned(r.end, res.end),
 ;
+
+/// std `Range<u32>::is_empty` (R8): `!(start < end)`.
+pub uninterp spec fn vx_range_is_empty<Idx>(r: Range<Idx>) -> bool;
+
+pub assume_specification<Idx>[ Range::<Idx>::is_empty ](r: &Range<Idx>) -> (res: bool)
+    where Idx: core::cmp::PartialOrd + core::cmp::PartialOrd,
+    ensures
+        res == vx_range_is_empty(*r),
+;
+
+pub broadcast axiom fn axiom_range_u32_is_empty(r: Range<u32>)
+    ensures
+        #[trigger] vx_range_is_empty(r) == !(r.start < r.end),
+;
